@@ -80,11 +80,12 @@ Proof.
   destruct (Z.eqb_spec (snd a) z) as [E|NE].
   - assert (Hall : forall p, In p A -> snd p = z).
     { intros p Hp. specialize (HF p Hp). unfold by_last in HF. specialize (Hle p (or_intror Hp)). lia. }
-    rewrite count_last_all by auto. replace (S (length A) - (1 + length A))%nat with 0%nat by lia.
+    rewrite count_last_all by auto.
+    match goal with |- firstn ?n _ = _ => assert (X : n = 0%nat) by lia; rewrite X; clear X end.
     destruct (Z.ltb_spec (snd a) z); [lia|]. cbn [firstn]. symmetry. apply filter_none.
     intros p Hp. rewrite (Hall p Hp). apply Z.ltb_irrefl.
   - pose proof (count_last_le z A). pose proof (Hle a (or_introl eq_refl)).
-    replace (S (length A) - (0 + count_last z A))%nat with (S (length A - count_last z A)) by lia.
+    match goal with |- firstn ?n _ = _ => assert (X : n = S (length A - count_last z A)) by lia; rewrite X; clear X end.
     destruct (Z.ltb_spec (snd a) z); [|lia]. cbn [firstn]. f_equal. apply IH; auto. intros; apply Hle; now right.
 Qed.
 
@@ -94,7 +95,7 @@ Lemma all2_true_nth r a b : length a = length b -> all2 r a b = true ->
 Proof. intros HL H. apply all2_nth; auto. Qed.
 
 (* a point that covers the lower corner dominates every cell of the region *)
-Lemma covers_dominates low up c q : length (fst q) = length low -> length low = length up ->
+Lemma covers_dominates low up c (q : hpt) : length (fst q) = length low -> length low = length up ->
   covers (fst q) low = true -> inbox low up c -> all2 Z.leb (fst q) c = true.
 Proof.
   intros Lq HL Hc Hb. apply inbox_nth in Hb; auto. destruct Hb as [Lc Hn].
@@ -123,19 +124,20 @@ Proof.
     destruct (first_cover_Some _ _ _ _ _ E) as [A [q [B [Hp [Hi [Hz [Hc HA]]]]]]]. cbn [Nat.add] in Hi. subst i z.
     assert (HfA : firstn (length A) pts = A).
     { rewrite Hp. rewrite firstn_app, firstn_all, Nat.sub_diag. cbn [firstn]. apply app_nil_r. }
-    rewrite HfA. rewrite Hp in Hsorted. apply SS_app_inv in Hsorted. destruct Hsorted as [SA [SB HAB]].
-    inversion SB as [|? ? SB' FB]; subst. rewrite Forall_forall in FB.
+    rewrite HfA. pose proof Hsorted as HS0. rewrite Hp in HS0. apply SS_app_inv in HS0. destruct HS0 as [SA [SB HAB]].
+    apply StronglySorted_inv in SB. destruct SB as [SB' FB]. rewrite Forall_forall in FB.
     assert (HAle : forall p, In p A -> snd p <= snd q) by (intros p Hq; apply (HAB p q); auto; now left).
     pose proof (count_last_le (snd q) A) as Hcl.
     assert (HP : firstn (length A - count_last (snd q) A) pts = filter (fun p => snd p <? snd q) A).
-    { rewrite <- (sorted_prefix_lt (snd q) A SA HAle). rewrite <- HfA at 3. rewrite firstn_firstn. f_equal. lia. }
+    { rewrite <- (sorted_prefix_lt (snd q) A SA HAle). transitivity (firstn (length A - count_last (snd q) A) (firstn (length A) pts)); [|now rewrite HfA].
+      rewrite firstn_firstn. f_equal. lia. }
     cbv zeta. rewrite HP. split; [|split; [|split]].
     + rewrite <- HP. apply firstn_length_le. rewrite Hp, app_length. lia.
-    + intros p. rewrite filter_In, Z.ltb_lt. split; [intros [Hin Hlt]; split; auto; apply in_or_app; now left|].
+    + intros p. rewrite filter_In, Z.ltb_lt, Hp. split; [intros [Hin Hlt]; split; auto; apply in_or_app; now left|].
       intros [Hin Hlt]. split; auto. apply in_app_or in Hin. destruct Hin as [Hin|[<-|Hin]]; auto; [lia|].
       specialize (FB p Hin). unfold by_last in FB. lia.
     + intros p Hin. apply filter_In in Hin. apply HA, Hin.
-    + right. exists q. split; [apply in_or_app; right; now left|]. auto.
+    + right. exists q. split; [rewrite Hp; apply in_or_app; right; now left|]. auto.
   - intros H. injection H as <- <- <-. rewrite firstn_all.
     rewrite count_last_none by (intros p Hp; specialize (Hrange p Hp); lia). rewrite Nat.sub_0_r.
     cbv zeta. rewrite firstn_all. split; [reflexivity|]. split; [|split].
